@@ -80,6 +80,7 @@ type vfSend struct {
 }
 
 type vfAddProviderLog struct {
+	slowKey     string // sending this key takes 10 s (virtual)
 	mu          sync.Mutex
 	sends       []vfSend
 	unreachable map[peer.ID]bool
@@ -92,6 +93,9 @@ func (l *vfAddProviderLog) SendRequest(context.Context, peer.ID, *pb.Message) (*
 }
 
 func (l *vfAddProviderLog) SendMessage(ctx context.Context, p peer.ID, m *pb.Message) error {
+	if l.slowKey != "" && string(m.GetKey()) == l.slowKey {
+		vfAdvance(10 * time.Second)
+	}
 	l.mu.Lock()
 	defer l.mu.Unlock()
 	if m.GetType() != pb.Message_ADD_PROVIDER || len(m.GetProviderPeers()) != 1 ||
@@ -311,6 +315,27 @@ func VfSweepScenario() {
 		sw.offline = false
 		sw.mu.Unlock()
 		// back online: everything missed is caught up within one interval (+ delay)
+	case 6: // a key is queued and withdrawn again while the only burst worker is busy with a slow provide
+		kSlow := vfKeyWithBits("10", 80)
+		log.slowKey = string(kSlow)
+		vfAssert(prov.ProvideOnce(kSlow) == nil, "sweep/provide-once")
+		vfAdvance(time.Second)
+		k2 := vfKeyWithBits("01", 81)
+		vfAssert(prov.StartProviding(false, k2) == nil, "sweep/start-providing")
+		vfAdvance(time.Second)
+		vfAssert(prov.StopProviding(k2) == nil, "sweep/stop-providing")
+		stopped = append(stopped, k2)
+		vfAdvance(2 * time.Minute)
+		vfWaitIdle()
+		log.slowKey = ""
+		once = append(once, kSlow)
+		k3 := vfKeyWithBits(vfBitsOf("afterwards.bits", 2), 82)
+		from := past()
+		vfAssert(prov.ProvideOnce(k3) == nil, "sweep/provide-once")
+		vfAdvance(time.Minute)
+		vfWaitIdle()
+		check(k3, from, time.Now(), "sweep/provide-once-key-is-advertised-to-its-r-nearest-peers")
+		once = append(once, k3)
 	}
 
 	C := vfParam("CYCLES")
